@@ -498,6 +498,10 @@ func callSSA(i *interpreter, caller *frame, callpos token.Pos, fn *ssa.Function,
 	px.depth++
 	if px.depth > px.maxDepth() {
 		px.depth--
+		if px.ex != nil && px.ex.Cfg.DepthIsViolation {
+			px.violation("panic", "fatal error: stack overflow (unbounded recursion)", fmt.Sprintf("call depth %d exceeded in %s", px.maxDepth(), fn), caller, nil)
+			px.abort("panic", "unbounded recursion in %s", fn)
+		}
 		px.abort("depth", "call depth %d exceeded in %s", px.maxDepth(), fn)
 	}
 	prevTop := px.top
